@@ -10,6 +10,11 @@ MODULE = "TraceGrammar"
 
 
 def generate(rng, tier, shard, nshards):
+    for G in fam.tlc_family(shard, nshards):        # (C) the exhaustive family enumerated by TLC, both back-ends
+        for alg in ("earley", "cky"):
+            for ctx in fam.strings(G["V"], 2):
+                yield gops.event("mask", {"sr": "Bool", "G": G, "ctx": list(ctx), "alg": alg}, site=f"BoolCFGLM[{alg}].p_next",
+                                 feat="tlc-family")
     n = 14 if tier == "quick" else 140
     L = 3 if tier == "quick" else 4
     for gi in range(n):
@@ -52,7 +57,9 @@ def selftests(events, rng):
 
 
 def run(report, tier, seed):
-    standard_run(report, "C01", MODULE, tier, seed, selftests,
+    from common import semantic_core
+    famfile = semantic_core(report, ["PrefixRecurrence", "PrefixEmpty"], maxrules=2, sr="Bool")
+    standard_run(report, "C01", MODULE, tier, seed, selftests, extra_env={"VERIF_FAMILY": famfile},
                  rule=("random grammars given in Boolean and in Float (x>0 coercion) with nullary rules, unary chains and "
                        "cycles, left/right recursion; every context up to L over V (viable or not) and contexts containing "
                        "end-of-sequence; both back-ends; TLC computes {t : PrefixWeight(ctx.t) # 0} and eos iff "
